@@ -827,8 +827,18 @@ pub fn parse_query(iter: &mut Iter<'_>) -> Query {
             iter.next();
             let mut copy = iter.clone();
             if let Some(res) = parse_unitlist(&mut copy) {
-                *iter = copy;
-                return Query::Convert(left, Conversion::List(res), None, Digits::Default);
+                // A list also ends at a comment or at a line end, and
+                // nothing may follow those either.
+                return match leftover(&mut copy) {
+                    Token::Eof => {
+                        *iter = copy;
+                        Query::Convert(left, Conversion::List(res), None, Digits::Default)
+                    }
+                    token => Query::Error(format!(
+                        "Expected end of input after the conversion target, got {}",
+                        describe(&token)
+                    )),
+                };
             }
             let digits = match iter.peek().cloned().unwrap() {
                 Token::Ident(ref s) if s == "digits" => {
